@@ -31,7 +31,7 @@ RULE = ('Each case = a recording (length 1..80, 1-5 channels, int16/float32/floa
         'chunk/file boundary of a >= 2-chunk recording, a -1 channel, an unsigned spike dtype or a '
         'non-float64 recording exported.')
 EXHAUSTIVE = {'quick': False, 'thorough': False}
-FLOORS = {'quick': {'evaluations': 2500, 'distinct_nontrivial': 1500, 'monitors': {'M1.checked': 20000}},
+FLOORS = {'quick': {'evaluations': 6000, 'distinct_nontrivial': 4000, 'monitors': {'M1.checked': 100000}},
           'thorough': {'evaluations': 80000, 'distinct_nontrivial': 40000, 'monitors': {'M1.checked': 500000}}}
 ASSUMPTIONS = ['unsorted spike vectors, spikes outside [0, n) and sample2unit=None are outside the quantifier',
                'store lookups are judged on the channels the store holds for that spike']
@@ -42,8 +42,8 @@ RDT = ['int16', 'float32', 'float64']
 
 
 def plan(tier, seed):
-    n = 3000 if tier == 'quick' else 100000
-    nm = 160 if tier == 'quick' else 4000
+    n = 6000 if tier == 'quick' else 100000
+    nm = 480 if tier == 'quick' else 4000
     return [{'shard': i, 'n': NSHARDS, 'seed': seed, 'cases': n // NSHARDS + 1, 'models': nm // NSHARDS + 1}
             for i in range(NSHARDS)]
 
